@@ -16,6 +16,7 @@ every run). It fixes, by hand:
 If /repo's code starts to use a field, a library function or a method that is not declared here, the regenerated module
 no longer elaborates and the check reports the obligation as failed: the declaration below is the complete list of what
 the translated functions may depend on. -/
+set_option autoImplicit false
 namespace Crng.Code
 
 abbrev Bytes := List UInt8
@@ -250,9 +251,16 @@ structure Aggregator where
 /-- destination/destination.go `type Destination struct`: the filter (`lockMatcher` guards it) -/
 structure Destination where
   Matcher : Matcher
-/-- route/route.go `baseConfig` / `baseRoute`: the route's filter inside its published config -/
+/-- `*destination.Destination` seen from a route -/
+structure DestI where
+  id : Nat
+  Match : Bytes → Bool
+  Shutdown : Res Unit := ([], ())
+  deriving Inhabited
+/-- route/route.go `baseConfig` / `baseRoute`: the route's filter and destinations inside its published config -/
 structure BaseConfig where
   Matcher : Matcher
+  Dests : List DestI := []
 structure baseRoute where
   config : BaseConfig
 
@@ -291,11 +299,6 @@ structure TableConfig where
   routes : List RouteI
 structure Table where
   config : TableConfig
-/-- `*destination.Destination` seen from a route -/
-structure DestI where
-  id : Nat
-  Match : Bytes → Bool
-  deriving Inhabited
 structure RouteConfig where
   Dests : List DestI
 structure SendAllMatch where
